@@ -874,6 +874,8 @@ EQ = os.path.join(HERE, "equiv")
 
 # behaviour-preserving refactors: every listed check must stay SILENT (exit 0) on them — a check that fires here is a false alarm
 EQUIV = [
+    ("eq-filename-validator-max-param", ["C17", "C06", "C14", "C12"], [os.path.join(EQ, "filename_validator_with_max_param.diff")], []),
+    ("eq-memory-put-group-helper", ["C08", "C09", "C10", "C19", "C06", "C12"], [os.path.join(EQ, "memory_put_group_helper.diff")], []),
     # not behaviour-preserving: a partial repair sketch for F20 (name / description bounded at decode time, before the merge); the checks
     # must accept it (the four name / description obligations are discharged, nothing new fires)
     ("eq-repair-sketch-F20-name-description-bounds", ["C06", "C08", "C15", "C05", "C12"], [os.path.join(EQ, "repair_sketch_f20_name_description_bounds.diff")], []),
